@@ -66,6 +66,7 @@ def payloadOff : Nat := 0
 def needBase : Nat := 0
 def maxLen : Nat := 0
 def readBuf : Nat := 0
+def deadlinePerMessage : Bool := false
 end ErgoVerif.Generated.Hs
 `
 
@@ -244,6 +245,11 @@ func genHs() (string, error) {
 	for _, k := range []string{"headerLen", "magicOff", "versionOff", "lenLo", "lenHi", "payloadOff", "needBase", "maxLen", "readBuf"} {
 		fmt.Fprintf(&sb, "def %s : Nat := %d\n", k, rc[k])
 	}
+	pm, err := hsDeadlinePerMessage(rd)
+	if err != nil {
+		return "", err
+	}
+	fmt.Fprintf(&sb, "/-- readMessage arms the read deadline (time.Now().Add(timeout)) once, before its loop, and never inside it -/\ndef deadlinePerMessage : Bool := %v\n", pm)
 	sb.WriteString("end ErgoVerif.Generated.Hs\n")
 	facts.Values["hs.sites"] = fsites
 	facts.Values["hs.reader"] = rc
@@ -555,4 +561,56 @@ func hsReaderFacts(fd *ast.FuncDecl, consts map[string]int64) (map[string]int64,
 		return nil, fmt.Errorf("readMessage: expect = %d+l but the completeness test uses %d+l", rc["expectBase"], rc["needBase"])
 	}
 	return rc, nil
+}
+
+
+// hsDeadlinePerMessage: where readMessage arms the read deadline with `time.Now().Add(timeout)`: true when such a
+// call stands before the read loop and none inside it; false when one is inside the loop (re-armed per Read).
+func hsDeadlinePerMessage(fd *ast.FuncDecl) (bool, error) {
+	arms := func(n ast.Node) bool {
+		found := false
+		ast.Inspect(n, func(x ast.Node) bool {
+			c, ok := x.(*ast.CallExpr)
+			if !ok || !strings.HasSuffix(hsSel(c.Fun), ".SetReadDeadline") || len(c.Args) != 1 {
+				return true
+			}
+			if a, ok := c.Args[0].(*ast.CallExpr); ok && strings.HasSuffix(hsSel(a.Fun), ".Add") {
+				found = true
+			}
+			return !found
+		})
+		return found
+	}
+	outside, inside, loops := false, false, 0
+	for _, st := range fd.Body.List {
+		if f, ok := st.(*ast.ForStmt); ok {
+			loops++
+			if arms(f) {
+				inside = true
+			}
+			continue
+		}
+		if arms(st) {
+			outside = true
+		}
+	}
+	if loops != 1 {
+		return false, fmt.Errorf("readMessage: expected one read loop at the top level of the function, found %d", loops)
+	}
+	if !outside && !inside {
+		return false, fmt.Errorf("readMessage: no SetReadDeadline(time.Now().Add(timeout)) found")
+	}
+	return outside && !inside, nil
+}
+
+func hsSel(e ast.Expr) string {
+	switch x := e.(type) {
+	case *ast.Ident:
+		return x.Name
+	case *ast.SelectorExpr:
+		return hsSel(x.X) + "." + x.Sel.Name
+	case *ast.CallExpr:
+		return hsSel(x.Fun) + "()"
+	}
+	return "?"
 }
